@@ -245,6 +245,18 @@ def arm_directed(bad, nvec, thorough):
         b2.ret(b2.bin(r2, "^", r, "i32"))
         return b2.m
 
+    # every argument register, with a result that tells the arguments apart
+    for n, t in ((4, "i32"), (3, "u8"), (2, "i16")):
+        def make(n=n, t=t):
+            b = B("f", "i32", [t] * n)
+            acc = b.c(1, "i32")
+            for k, q in enumerate(b.p):
+                acc = b.bin(b.bin(acc, "*", b.c(5, "i32"), "i32"), "-", b.bin(b.cast(q, "i32") if t != "i32" else q, "^", b.c(k, "i32"), "i32"), "i32")
+            b.ret(acc)
+            return b.m
+
+        add("aregargs.%d.%s" % (n, t), make, [t] * n, "%d register arguments of type %s combined non-commutatively" % (n, t),
+            [[k + 2 for k in range(n)]])
     add("acall4", make_fp, ["i32", "i32"], "h(h(x, y, 3, y), x, y, 5) ^ h(x, y, 3, y): four register arguments, live values across calls",
         [[100, 7], [-5, 9]])
     return out
@@ -259,7 +271,7 @@ def programs(ctx, bad, thorough):
         p["key"] = "a" + p["key"][2:] if p["key"].startswith("rv") else p["key"]
     nvec = 4 if thorough else 3
     if not thorough:
-        progs = progs[::2]          # quick tier: every second program of the shared corpus
+        progs = progs[::3]          # quick tier: every third program of the shared corpus
     return arm_directed(bad, nvec, thorough) + progs
 
 
@@ -486,6 +498,14 @@ def c05_part(ctx, thorough, only=None):
                       "combinations of the corpus: nothing is left to compare with the IR" % (nvar, len(progs) * len(MARCHS) * len(levels)),
                       {"part": "arm", "skipped": {k: v for k, v in ctx.cov.items() if k.startswith("arm_skipped")}})
     execute_and_judge(ctx, ready)
+
+
+def c05_hook(ctx, thorough, part, only):
+    """called from engines/c05.py: part = "" (all parts) | "arm" | another part's name; only = program key of a replay"""
+    if part not in ("", "arm"):
+        return False
+    c05_part(ctx, thorough, only if ctx.only is not None else None)
+    return part == "arm"
 
 
 def model_check(ctx, thorough):
